@@ -57,6 +57,8 @@ var c15FrameNames = [...]string{"STREAM", "RESET_STREAM", "STREAM_DATA_BLOCKED",
 //	sync    Open[Uni]StreamSync in a new goroutine (stays blocked if there is no credit)
 //	csync   cancel the context of the W-th oldest blocked OpenStreamSync caller of type T
 //	race    cancel the oldest blocked caller and deliver MAX_STREAMS(+N) without waiting in between
+//	        (W=1: MAX_STREAMS first, then the cancellation)
+//	jump    deliver MAX_STREAMS(+N), N <= number of blocked callers, and call Open[Uni]Stream at once
 //	acc     Accept[Uni]Stream; if it blocks, its context is cancelled right away ("try accept")
 //	bacc    Accept[Uni]Stream in a new goroutine, left blocked
 //	cacc    cancel the blocked Accept caller of type T
@@ -77,8 +79,10 @@ func (o c15Op) String() string {
 	switch o.K {
 	case "tp":
 		return fmt.Sprintf("tp(bidi=%d,uni=%d)", o.N, o.W)
-	case "max", "race":
+	case "max", "jump":
 		return fmt.Sprintf("%s(%s,%d)", o.K, ty, o.N)
+	case "race":
+		return fmt.Sprintf("race(%s,%d,%s)", ty, o.N, [...]string{"cancel-first", "credit-first"}[o.W&1])
 	case "csync":
 		return fmt.Sprintf("csync(%s,#%d)", ty, o.W)
 	case "frame":
@@ -547,6 +551,8 @@ func (r *c15Run) applicable(op c15Op) bool {
 		return op.W >= 0 && op.W < len(r.out[t].waiters)
 	case "race":
 		return !r.closed && len(r.out[t].waiters) > 0 && op.N > 0
+	case "jump":
+		return !r.lenient() && op.N > 0 && op.N <= len(r.out[t].waiters)
 	case "tp", "max", "frame":
 		return !r.closed
 	case "del":
@@ -678,8 +684,13 @@ func (r *c15Run) step(op c15Op) bool {
 		head := o.waiters[0]
 		preW, preOpened := len(o.waiters), o.opened
 		newMax := o.peerMax + op.N
-		head.cancel()
+		if op.W&1 == 0 {
+			head.cancel()
+		}
 		r.m.HandleMaxStreamsFrame(&wire.MaxStreamsFrame{Type: r.stype(t), MaxStreamNum: protocol.StreamNum(newMax)})
+		if op.W&1 == 1 {
+			head.cancel()
+		}
 		r.settle()
 		o.peerMax = newMax
 		if !head.done.Load() {
@@ -707,6 +718,36 @@ func (r *c15Run) step(op c15Op) bool {
 			// cancellation had not been processed yet: the frame is legitimate, not required
 			w.add(c15WantBlocked(t, newMax, true))
 		}
+		r.checkEffects(w)
+	case "jump":
+		// Credit for (some of) the queued callers arrives and Open is called before they can have
+		// been woken.  The queued callers came first: Open must fail, whether it finds them still
+		// queued or already served (N <= number of callers, so no credit is left over).
+		newMax := o.peerMax + op.N
+		r.m.HandleMaxStreamsFrame(&wire.MaxStreamsFrame{Type: r.stype(t), MaxStreamNum: protocol.StreamNum(newMax)})
+		var id protocol.StreamID
+		var err error
+		if t == c15Bidi {
+			var s *Stream
+			if s, err = r.m.OpenStream(); err == nil {
+				id = s.StreamID()
+			}
+		} else {
+			var s *SendStream
+			if s, err = r.m.OpenUniStream(); err == nil {
+				id = s.StreamID()
+			}
+		}
+		r.settle()
+		o.peerMax = newMax
+		r.cnt("credit_raised")
+		if err == nil {
+			r.fail("C15|outgoing|sync-order", "OpenStream returned stream %d right after MAX_STREAMS(+%d) although %d OpenStreamSync callers were queued before it", id, op.N, len(o.waiters))
+			break
+		}
+		w := c15Want{created: r.serveWaiters(t)}
+		// Either SetMaxStream (callers remain blocked) or the failing Open reports the new limit, once.
+		w.add(c15WantBlocked(t, newMax, false))
 		r.checkEffects(w)
 	case "acc", "bacc":
 		c := r.spawn(t, true)
